@@ -8,6 +8,7 @@ import ast
 import z3
 
 from . import front
+from .sym import forall
 from .sym import (Val, Con, ZV, TupV, SetV, DictV, ListV, OptV, StrV, Loc, NONE,
                   Type, TScalar, TInt, TReal, TBool, TStr, TSet, TDict, TList,
                   TTuple, TOpt, OutOfSubset, deref, coerce_term, ite, usort,
@@ -28,6 +29,8 @@ class Klass:
         self.fields = dict(fields or {})
         self.parent = parent
         self.invariants = []          # (name, role, text)
+        self.rely = []                # (name, text) two-state clauses on callbacks
+        self.client_fields = None     # fields callbacks may change (default: all)
         self.open_methods = {}        # name -> OpenFn
         self.attr_hooks = {}
         self.sort = usort(sort_name)
@@ -39,6 +42,24 @@ class Klass:
                 return k.attr_hooks[attr]
             k = k.parent
         return None
+
+    def invariant(self, name, text, role='aux'):
+        self.invariants.append((name, role, text))
+
+    def all_rely(self):
+        out, k = [], self
+        while k is not None:
+            out = list(k.rely) + out
+            k = k.parent
+        return out
+
+    def all_fields(self):
+        out, k = {}, self
+        while k is not None:
+            for f, T in k.fields.items():
+                out.setdefault(f, T)
+            k = k.parent
+        return out
 
     def all_invariants(self):
         out = []
@@ -53,7 +74,7 @@ class Contract:
     def __init__(self, qual, params=None, requires=None, ensures=None, raises=None,
                  modifies=None, returns=None, inline_ok=False, props=(), note='',
                  ghost_pre=None, ghost_post=None, open_effect=False, covers=None,
-                 implicit_ok=()):
+                 implicit_ok=(), rely=None, ghost_results=None, log_invocation=None):
         self.qual = qual
         self.params = dict(params or {})
         self.requires = list((requires or {}).items()) if isinstance(requires, dict) \
@@ -66,6 +87,9 @@ class Contract:
         self.note = note
         self.open_effect = open_effect
         self.implicit_ok = tuple(implicit_ok)
+        self.rely = rely
+        self.ghost_results = dict(ghost_results or {})
+        self.log_invocation = log_invocation
 
 
 def _clauses(c):
@@ -127,6 +151,10 @@ class Spec:
         self.inline = set()          # quals forced inline even if a contract exists
         self.assumptions = []        # (id, text) site / global assumptions in force
         self.open_handlers = []
+        self.open_raise_categories = ['$OtherException']
+        self.env_havocs = []
+        self.ghost_decls = {}
+        self.sites = {}
 
     # ----------------------------------------------------------- declaration
     def klass(self, qual, sort_name, fields=None, parent=None):
@@ -175,7 +203,7 @@ class Spec:
         self.spec_names[name] = Builtin(name, lambda X, a, k, n: fn(X, *a))
 
     def sort_name(self, name, sort=None):
-        self.spec_names[name] = prelude.SortDomain(sort or usort(name))
+        self.spec_names[name] = prelude.SortDomain(sort if sort is not None else usort(name))
 
     # ------------------------------------------------------------ evaluation
     def parse(self, text):
@@ -274,8 +302,7 @@ class Spec:
         for (k, name, role, text) in kl.all_invariants():
             if only is not None and name != only:
                 continue
-            env = {'self': ZV(X.upcast(obj.t, k)) if k is not kl else obj}
-            env['self'] = obj
+            env = {'self': obj}
             conj.append(self.eval_bool(X, text, env))
         return z3.And(*conj) if conj else z3.BoolVal(True)
 
@@ -474,10 +501,61 @@ class Spec:
         return None
 
     def code_comprehension(self, X, node, fr, kind):
-        h = getattr(self, 'code_comprehension_hook', None)
-        if h:
-            return h(X, node, fr, kind)
-        X.unsupported('comprehension over a symbolic collection in code', node)
+        """[elt for target in C (if cond)] over a symbolic collection C that the
+        element/condition expressions do not modify: pointwise image (no `if`) or
+        order-preserving filtered image."""
+        from . import loops
+        if len(node.generators) != 1:
+            X.unsupported('nested comprehension over symbolic collections', node)
+        g = node.generators[0]
+        it = X.ev(g.iter, fr)
+        seq, item = loops.iteration_sequence(X, it, node)
+        sub = Frame(fr.module, parent=fr, cls=fr.cls)
+        i = z3.Int(X.fresh_name('ci'))
+        heap_before = dict(X.heap)
+        X.assign(g.target, item(i), sub)
+        conds = []
+        X.spec_mode += 1
+        try:
+            for c in g.ifs:
+                conds.append(X._z(X.truth(X.ev(c, sub))))
+            elt = deref(X.ev(node.elt, sub))
+        finally:
+            X.spec_mode -= 1
+        if any(k not in heap_before or any(not a.eq(b) for a, b in zip(v, heap_before[k]))
+               for k, v in X.heap.items()):
+            X.unsupported('comprehension with side effects', node)
+        E = type_of_val(elt)
+        ats = [z3.Const(X.fresh_name('cmp_at'), z3.ArraySort(z3.IntSort(), srt))
+               for srt in E.leaf_sorts()]
+        el = E.to_leaves(elt)
+        if not conds:
+            for a, l in zip(ats, el):
+                X.assume(forall([i], z3.Implies(z3.And(0 <= i, i < seq.n), a[i] == l),
+                                   patterns=[a[i]]))
+            out = ListV(E, seq.n, ats)
+            out.image_of = (seq, i, el)
+            return out
+        # filtered: strictly increasing embedding emb with partial inverse inv
+        cond = z3.And(*conds)
+        n = z3.Int(X.fresh_name('cmp_n'))
+        emb = z3.Function(X.fresh_name('cmp_emb'), z3.IntSort(), z3.IntSort())
+        inv = z3.Function(X.fresh_name('cmp_inv'), z3.IntSort(), z3.IntSort())
+        j, j2 = z3.Ints('j_cmp j2_cmp')
+        X.assume(z3.And(n >= 0, n <= seq.n))
+        body = [0 <= emb(j), emb(j) < seq.n, z3.substitute(cond, (i, emb(j))), inv(emb(j)) == j]
+        for a, l in zip(ats, el):
+            body.append(a[j] == z3.substitute(l, (i, emb(j))))
+        X.assume(forall([j], z3.Implies(z3.And(0 <= j, j < n), z3.And(*body)),
+                           patterns=[emb(j)] + [a[j] for a in ats]))
+        X.assume(forall([j, j2], z3.Implies(z3.And(0 <= j, j < j2, j2 < n), emb(j) < emb(j2)),
+                           patterns=[z3.MultiPattern(emb(j), emb(j2))]))
+        X.assume(forall([i], z3.Implies(z3.And(0 <= i, i < seq.n, cond),
+                                           z3.And(0 <= inv(i), inv(i) < n, emb(inv(i)) == i)),
+                           patterns=[inv(i)]))
+        out = ListV(E, n, ats)
+        out.filter_of = (seq, emb, inv)
+        return out
 
     def bind_from_pack(self, X, fn, nargs, kwargs, node, fr):
         X.unsupported('opaque *args bound to named parameters', node)
@@ -557,9 +635,25 @@ class Spec:
         for name, text in ct.requires:
             X.oblige('%s:call-pre[%s].%s' % (X.fn_name, short, name),
                      self.eval_bool(X, text, env, closure.module), kind='call-pre', role='aux')
+        if ct.log_invocation:
+            gname, gtext = ct.log_invocation
+            lg = X.ghost.get(gname)
+            if lg is None:
+                self.havoc_ghost(X, gname)
+                lg = X.ghost[gname]
+            entry = lg.E.to_leaves(self.eval_spec(X, gtext, env, closure.module))
+            X.ghost[gname] = ListV(lg.E, lg.n + 1, [z3.Store(a, lg.n, l)
+                                                     for a, l in zip(lg.ats, entry)])
         snap = X.snapshot()
         X.events.append(('call', ct.qual, env))
         self.havoc_modifies(X, ct, env)
+        if ct.open_effect:
+            # the callee calls out: everything callbacks may change is havocked
+            for rn in (ct.rely or ['self']):
+                o = deref(env.get(rn)) if rn in env else None
+                if isinstance(o, ZV) and o.t.sort().name() in self.sort_classes:
+                    self.havoc_client_state(X, o)
+            self.havoc_environment(X)
         result = NONE
         if ct.returns is not None:
             result = X.fresh(ct.returns, 'res_' + short)
@@ -570,6 +664,12 @@ class Spec:
         which = X.choose([True] * len(exits)) if len(exits) > 1 else 0
         X.old_stack.append(snap)
         try:
+            for gname, gtext in ct.ghost_results.items():
+                if isinstance(gtext, Type):
+                    env[gname] = X.fresh(gtext, 'gr_' + gname)
+                    continue
+                gs = deref(self.eval_spec(X, gtext, env, closure.module))
+                env[gname] = prelude.set_enumeration(X, gs)
             if which == 0:
                 env2 = dict(env)
                 env2['result'] = result
@@ -619,16 +719,15 @@ class Spec:
             kl, T = X.field_decl(sn, field)
             if kl is None:
                 raise SpecError('modifies: no field %s on %s' % (field, sn))
-            o = X.upcast(obj.t, kl)
-            leaves = X.heap_leaves(kl, field, T)
+            o = obj.t
+            leaves = X.heap_leaves(sn, field, T)
             new = [z3.Store(a, o, z3.Const(X.fresh_name('hv_%s_%s' % (sn, field)), s))
                    for a, s in zip(leaves, T.leaf_sorts())]
-            X.heap[(kl.sort_name, field)] = new
+            X.heap[(sn, field)] = new
         elif base in self.sort_classes:
-            kl = self.sort_classes[base]
             kl2, T = X.field_decl(base, field)
-            leaves = X.heap_leaves(kl2, field, T)
-            X.heap[(kl2.sort_name, field)] = [
+            leaves = X.heap_leaves(base, field, T)
+            X.heap[(base, field)] = [
                 z3.Const(X.fresh_name('hv_%s_%s' % (base, field)), a.sort()) for a in leaves]
         else:
             # path expression, e.g. "self.world._entities"
@@ -647,7 +746,45 @@ class Spec:
         decl = self.ghost_decls.get(g) if hasattr(self, 'ghost_decls') else None
         if decl is None:
             raise SpecError('undeclared ghost ' + g)
+        if callable(decl) and not isinstance(decl, Type):
+            decl(X)
+            return
         X.ghost[g] = X.fresh(decl, 'g_' + g)
+        if isinstance(X.ghost[g], ListV):
+            X.assume(X.ghost[g].n >= 0)
+
+    def site_config(self, X, node):
+        """Per open-call site settings, keyed by (function short name, line-free
+        ordinal of the call among the open calls of that function)."""
+        return self.sites.get(X.fn_name, {})
+
+    # ------------------------------------------------------------ rely
+    def rely_objects(self, X):
+        return list(getattr(X, 'rely_objs', []))
+
+    def havoc_client_state(self, X, obj):
+        kl = self.sort_classes[obj.t.sort().name()]
+        fields = kl.all_fields()
+        names = kl.client_fields if kl.client_fields is not None else list(fields)
+        for f in names:
+            if isinstance(fields[f], ClassLevel):
+                continue
+            self.havoc_target(X, '$o.' + f, {'$o': obj})
+
+    def havoc_environment(self, X):
+        for h in self.env_havocs:
+            h(X)
+
+    def rely_extra(self, X, obj):
+        kl = self.sort_classes[obj.t.sort().name()]
+        out = []
+        for name, text in kl.all_rely():
+            out.append(self.eval_bool(X, text, {'self': obj}))
+        return out
+
+    def note_assumption(self, text):
+        if text not in self.assumptions:
+            self.assumptions.append(text)
 
     def global_axioms(self, X):
         return []
@@ -757,6 +894,8 @@ class FunctionRun:
             if k.startswith('$'):       # ghost parameters
                 env[k[1:]] = X.fresh(T, 'gp_' + k[1:]) if isinstance(T, Type) else T(X, k[1:])
         fr.vars.update({n: env[n] for n in names})
+        if 'self' in env and isinstance(env['self'], ZV) and is_usort(env['self'].t.sort()):
+            X.assume(env['self'].t != none_of(env['self'].t.sort()))
         for g in getattr(spec, 'ghost_decls', {}):
             spec.havoc_ghost(X, g)
         for ax in spec.global_axioms(X):
@@ -766,13 +905,23 @@ class FunctionRun:
         snap = X.snapshot()
         X.entry_env = env
         X.entry_snap = snap
+        X.rely_objs = []
+        for rn in getattr(ct, 'rely', None) or ['self']:
+            o = env.get(rn)
+            if isinstance(o, ZV) and is_usort(o.t.sort()) and \
+                    o.t.sort().name() in spec.sort_classes and \
+                    spec.sort_classes[o.t.sort().name()].all_invariants():
+                X.rely_objs.append(o)
         short = short_name(self.qual)
+        X.old_stack.append(snap)
         try:
             try:
                 X.run_block(front.strip_docstring(fn), fr)
                 result = NONE
             except _Return as r:
                 result = r.v
+            finally:
+                X.old_stack.pop()
         except PyRaise as pr:
             exc = pr.exc
             matched = None
@@ -789,6 +938,9 @@ class FunctionRun:
                 return 'raise:' + exc.cls
             env2 = dict(env)
             env2['exc'] = exc
+            for gname in ct.ghost_results:
+                g = X.named_ghosts.get(gname)
+                env2[gname] = g if g is not None else self.dummy_ghost(X, ct, gname, env, snap, m)
             X.old_stack.append(snap)
             try:
                 for name, text, role in ct.raises[matched]:
@@ -803,6 +955,9 @@ class FunctionRun:
             return 'raise:' + matched
         env2 = dict(env)
         env2['result'] = result
+        for gname in ct.ghost_results:
+            g = X.named_ghosts.get(gname)
+            env2[gname] = g if g is not None else self.dummy_ghost(X, ct, gname, env, snap, m)
         X.old_stack.append(snap)
         try:
             X.cur_node = fn
@@ -817,11 +972,22 @@ class FunctionRun:
             self.events_samples.append([str(e[:2]) for e in X.events][:6])
         return 'return'
 
+    def dummy_ghost(self, X, ct, gname, env, snap, m):
+        """The ghost result was not produced on this path (loop not reached):
+        any enumeration of the declared set will do."""
+        gr = ct.ghost_results[gname]
+        if isinstance(gr, Type):
+            return X.fresh(gr, 'gr_' + gname)
+        X.old_stack.append(snap)
+        try:
+            s = deref(self.spec.eval_spec(X, gr, env, m))
+        finally:
+            X.old_stack.pop()
+        return prelude.set_enumeration(X, s)
+
     def check_clause(self, X, name, text, env, m, role, kind):
         goal = self.spec.eval_bool(X, text, env, m)
-        for i, g in enumerate(split_conj(goal)):
-            X.oblige(name if i == 0 else '%s/%d' % (name, i), g, kind=kind, role=role,
-                     assume_after=False, info={'clause': text})
+        oblige_split(X, name, goal, kind, role, info={'clause': text})
 
     def check_frame(self, X, ct, env, snap, short):
         """Everything not listed in `modifies` is unchanged."""
@@ -833,11 +999,9 @@ class FunctionRun:
             base, field = mtxt.rsplit('.', 1)
             if base in env and isinstance(deref(env[base]), ZV):
                 obj = deref(env[base])
-                kl, T = X.field_decl(obj.t.sort().name(), field)
-                allowed.setdefault((kl.sort_name, field), []).append(X.upcast(obj.t, kl))
+                allowed.setdefault((obj.t.sort().name(), field), []).append(obj.t)
             elif base in self.spec.sort_classes:
-                kl, T = X.field_decl(base, field)
-                whole.add((kl.sort_name, field))
+                whole.add((base, field))
             else:
                 whole.add(('?', field))
         if ct.open_effect:
@@ -857,6 +1021,62 @@ class FunctionRun:
                     exp = z3.Store(exp, ob, n[ob])
                 X.oblige('%s:frame.%s.%s' % (short, key[0], key[1]), n == exp,
                          kind='frame', role='prop', assume_after=False)
+
+
+_sk = [0]
+
+
+def split_goal(f, hyps=(), depth=0):
+    """Goal -> [(extra hypotheses, atomic subgoal)]: universal quantifiers are
+    skolemised by hand, conjunctions and boolean equivalences split, premises of
+    implications moved to the hypotheses (z3 proves the pieces far more reliably
+    than the whole)."""
+    hyps = list(hyps)
+    if depth > 12:
+        return [(hyps, f)]
+    if z3.is_quantifier(f) and f.is_forall():
+        vs = []
+        for i in range(f.num_vars()):
+            _sk[0] += 1
+            vs.append(z3.Const('sk!%s!%d' % (f.var_name(i), _sk[0]), f.var_sort(i)))
+        body = z3.substitute_vars(f.body(), *reversed(vs))
+        return split_goal(body, hyps, depth + 1)
+    if z3.is_and(f):
+        out = []
+        for c in f.children():
+            out.extend(split_goal(c, hyps, depth + 1))
+        return out
+    if z3.is_implies(f):
+        a, b = f.children()
+        return split_goal(b, hyps + [a], depth + 1)
+    if z3.is_eq(f) and f.arg(0).sort() == z3.BoolSort() and not z3.is_true(f.arg(0)) \
+            and not z3.is_false(f.arg(0)) and not z3.is_true(f.arg(1)) and not z3.is_false(f.arg(1)):
+        a, b = f.children()
+        return split_goal(b, hyps + [a], depth + 1) + split_goal(a, hyps + [b], depth + 1)
+    if z3.is_not(f) and z3.is_or(f.arg(0)):
+        out = []
+        for c in f.arg(0).children():
+            out.extend(split_goal(z3.Not(c), hyps, depth + 1))
+        return out
+    return [(hyps, f)]
+
+
+def oblige_split(X, name, goal, kind, role, info=None, assume_after=False):
+    _sk[0] = 0
+    parts = split_goal(goal)
+    for i, (hy, g) in enumerate(parts):
+        nm = name if i == 0 else '%s/%d' % (name, i)
+        if hy:
+            saved = len(X.pc)
+            X.pc.extend(hy)
+            try:
+                X.oblige(nm, g, kind=kind, role=role, info=info, assume_after=False)
+            finally:
+                del X.pc[saved:]
+        else:
+            X.oblige(nm, g, kind=kind, role=role, info=info, assume_after=False)
+    if assume_after:
+        X.assume(goal)
 
 
 def split_conj(f):
